@@ -650,6 +650,8 @@ def run(chk):
     from .. import gens
     gens.apply(chk, "C20-R6", {"simultaneous", "sequentials", "red_vars", "has_variants", "quantities", "equations", "attributes", "stackers"}, 15,
                "a generator consumed inside the loop over variants serves variant 0 only")
+    from .. import unused as _unused
+    chk.guard(_unused.apply, chk, "C20-R91")
     from .. import args as _args
     chk.guard(_args.apply, chk, "C20-R90", {'equations', 'has_variants', 'quantities', 'red_vars', 'sequentials', 'simultaneous'}, 1)
     chk.assumptions = [
